@@ -495,6 +495,7 @@ def run_scenario(tree, wpath, sc, maxq=None, world=None):
         w.limits = tuple(sc["limits"])
     led = Ledger(sc, res, w)
     led.alrm_pending = {}
+    w.partial = None
     mode = sc["mode"]
     crash = fault = None
     if mode["kind"] == "crash":
@@ -600,6 +601,18 @@ def run_scenario(tree, wpath, sc, maxq=None, world=None):
                 res.nq += 1
             if mode["kind"] == "fault" and not reached_mode:
                 pass
+            if getattr(w, "partial", None):
+                # second half of a report that was split across two writes (C18: reports may arrive in pieces)
+                cmd, rest, text, dying = w.partial
+                w.partial = None
+                led.on_report(cmd, text, dying)
+                w.raw_report(cmd.chan, rest)
+                cmd.answered = text
+                if cmd in w.outstanding:
+                    w.outstanding.remove(cmd)
+                w.history.append(("report_second_half", cmd.as_json()))
+                w.resume()
+                continue
             # enabled actions
             enabled = []
             if finishing or led.term_sent:
@@ -698,7 +711,17 @@ def run_scenario(tree, wpath, sc, maxq=None, world=None):
                 w.resume()
             elif act[0] == "garbage":
                 used["garbage"] += 1
-                hostile_report(sc, w, led, arg, res)
+                if arg % 7 == 6 and w.outstanding and all(w.spawner_alive):
+                    cmd = w.outstanding[(arg // 7) % len(w.outstanding)]
+                    text, dying = choose_report(sc, led, cmd, attempt, texts)
+                    data = bytes([cmd.delnum]) + text + b"\0"
+                    cut = 1 + (arg // 49) % (len(data) - 1)
+                    w.raw_report(cmd.chan, data[:cut])
+                    w.partial = (cmd, data[cut:], text, dying)
+                    res.classes.add("split_report")
+                    res.classes.add("hostile_report")
+                else:
+                    hostile_report(sc, w, led, arg, res)
                 w.resume()
         led.final()
         check_attempt_counts(sc, led, res)
